@@ -34,7 +34,7 @@ def seq_check(check, level, assumptions, parts=None, nshards=None, timeout=None,
     return run
 
 
-def sched_check(level, assumptions, budget=None, shards=None):
+def sched_check(level, assumptions, budget=None, shards=None, race_pass=None):
     """generic Engine B check: every scenario registered for the property, each sharded over worker processes."""
     budget = budget or {"quick": 90, "thorough": 1200}
 
@@ -59,7 +59,18 @@ def sched_check(level, assumptions, budget=None, shards=None):
                                      "-seed", str(seed), "-budget", str(budget[tier])], "name": "%s_%d" % (n, i)})
         results, failures = V.run_jobs(jobs, os.path.join(V.SCRATCH, "work", prop), budget[tier] * 3 + 120)
         merged = V.merge(results)
-        return V.finish(prop, level, tier, seed, merged, failures, assumptions + SCHED_ASSUMPTIONS, t0)
+        extra = None
+        if race_pass:
+            import race
+            rr = race.run(race_pass[tier])
+            extra = {"auxiliary_free_running_race_pass": {"sampled": True, "seconds": race_pass[tier], "iterations": rr["iterations"],
+                                                          "races_inside_module": [x["sig"] for x in rr["races"]], "note": rr.get("note", "")}}
+            for x in rr["races"]:
+                merged["violations"].append({"sig": "data race inside the library (free-running -race pass): " + x["sig"], "desc": x["report"],
+                                             "replay": {"kind": "race", "cmd": "bin/vcheck C18 (auxiliary pass: zzverif/racecheck built with -race)"}})
+            for mm in rr.get("mismatches", []):
+                merged["violations"].append({"sig": "free-running pass: result mismatch", "desc": mm, "replay": {"kind": "race"}})
+        return V.finish(prop, level, tier, seed, merged, failures, assumptions + SCHED_ASSUMPTIONS, t0, extra_cov=extra)
 
     return run
 
@@ -76,6 +87,9 @@ def golden_env(tier):
 
 
 PROPS = {
+    "C18": sched_check("model_checking", ["writer programs are interleaved at operation granularity and at pool Get/Put (writers are single-goroutine objects; the shared objects are the pools)",
+                                          "unsynchronised accesses are looked for by a separate free-running -race pass over loopback TCP (auxiliary, sampled by wall-clock; the deciding part is the schedule exploration)"],
+                       race_pass={"quick": 6, "thorough": 60}),
     "C04": sched_check("model_checking", ["the rpc client runs on a real mpx client whose dialer is replaced by a scheduler-controlled connector; the server side is the real rpc server handler on real server connections"]),
     "C19": sched_check("model_checking", ["the TCP dialer is replaced by a scheduler-controlled connector (dial outcomes are scripted or environment choices); time is virtual: timers fire only when no thread is enabled", "quiescence = no enabled thread (scheduler-observable)"]),
     "C09": sched_check("fault_enumeration", ["fault points are byte offsets of the session recorded under the default schedule; 'within bounded time' is decided as 'in every maximal execution within the step horizon' (virtual time): a waiter that is never released is a deadlock of the execution"]),
